@@ -56,10 +56,14 @@ func builtinNumberToFixed(call FunctionCall) Value {
 	if call.This.IsNaN() {
 		return stringValue("NaN")
 	}
-	if value := call.This.float64(); math.Abs(value) >= 1e21 {
+	value := call.This.float64()
+	if math.Abs(value) >= 1e21 {
 		return stringValue(floatToString(value, 64))
 	}
-	return stringValue(strconv.FormatFloat(call.This.float64(), 'f', int(precision), 64))
+	if value == 0 {
+		value = 0 // ES5 15.7.4.5 step 6: -0 is not negative
+	}
+	return stringValue(strconv.FormatFloat(value, 'f', int(precision), 64))
 }
 
 func builtinNumberToExponential(call FunctionCall) Value {
